@@ -188,7 +188,7 @@ ParseValue(d, e) ==
                            ELSE Res(FALSE, None, "name-component-overrun"))
     [] d.kind = "model" -> LET r == ScanLoop(d.sub, d.ic, e.kids, InitSt(d.sub)) IN
                            (IF r.status = "accept" THEN Res(TRUE, [k |-> "model", v |-> r.out], "")
-                            ELSE Res(FALSE, None, r.why))
+                            ELSE Res(FALSE, None, d.name \o "/" \o r.why))     \* reasons carry the path of nested fields
 
 (* One iteration of `while offset < len(wire)` (plus the exit test). s = schema, ic = ignore_critical,
    input = the elements of this level, st = machine state.
